@@ -208,6 +208,25 @@ _SILENT.setLevel(logging.CRITICAL + 1)
 _SILENT.propagate = False
 
 
+class _FormatOnly(logging.Handler):
+    def emit(self, record):
+        record.getMessage()
+
+
+_DEBUG = logging.getLogger("machsim.debug")
+_DEBUG.setLevel(logging.DEBUG)
+_DEBUG.propagate = False
+_DEBUG.addHandler(_FormatOnly())
+
+
+def _logger(sc):
+    """Per-run knob: a DEBUG logger whose handler formats every record (the
+    library then prints the code it is about to assemble and the blocks it
+    changed, reading shared state in mid-rewrite); the emitted code must not
+    depend on it."""
+    return _DEBUG if sc.get("debug_log") else _SILENT
+
+
 def _install_capture():
     from gtirb_rewriting import rewriting as R
 
@@ -317,7 +336,7 @@ def history_session(w, sc):
         def get_asm(self, ctx):
             return text
 
-    ctx = gtirb_rewriting.RewritingContext(w.m, w.functions, logger=_SILENT)
+    ctx = gtirb_rewriting.RewritingContext(w.m, w.functions, logger=_logger(sc))
     ctx.insert_at(w.b1, 0, HistoryCall(Constraints()))
     ctx.apply()
     w.functions = gtirb_functions.Function.build_functions(w.m)
@@ -458,6 +477,8 @@ def gen_c16(seed, params):
         "body": body,
         "signals": gen_signals(streams.get("faults"), params),
     }
+    if streams.get("gen.knob").random() < 0.1:
+        sc["debug_log"] = True
     return sc
 
 
@@ -742,6 +763,8 @@ def gen_c17(seed, params):
         # their own from ABI.calling_convention() by editing the description
         # it returned; the patch under test is built afterwards
         sc["prior_conv_edit"] = {"drop_registers": rp.randint(1, 3), "shadow_space": rp.choice([0, 8, 64]), "flip_cleanup": rp.random() < 0.5}
+    if streams.get("gen.knob").random() < 0.1:
+        sc["debug_log"] = True
     return sc
 
 
@@ -907,7 +930,7 @@ def execute_c16(sc, params, stats):
             return "nop"
 
     patch = Marker(constraints)
-    ctx = gtirb_rewriting.RewritingContext(w.m, w.functions, logger=_SILENT)
+    ctx = gtirb_rewriting.RewritingContext(w.m, w.functions, logger=_logger(sc))
     block, off = [(w.b0, 0), (w.b0, w.first_len), (w.b1, 0)][func.get("site", 0) % 3]
     if func.get("history") and block is w.b1:
         block, off = w.b0, 0
@@ -1260,7 +1283,7 @@ def _execute_c17(sc, params, stats, cleanups):
     except ValueError as e:
         raise core.Rejected(f"CallPatch refused the convention: {e}")
     align_stack = patch.constraints.align_stack
-    ctx = gtirb_rewriting.RewritingContext(w.m, w.functions, logger=_SILENT)
+    ctx = gtirb_rewriting.RewritingContext(w.m, w.functions, logger=_logger(sc))
     block, off = [(w.b0, 0), (w.b0, w.first_len), (w.b1, 0)][func.get("site", 0) % 3]
     if func.get("history") and block is w.b1:
         block, off = w.b0, 0
@@ -1523,6 +1546,8 @@ def execute(prop, sc, params):
     sigma = sc["sigma"]
     core.reseed(sigma["uuid_seed"], sigma["salt"])
     stats = collections.Counter()
+    if sc.get("debug_log"):
+        stats["knob.debug_log"] += 1
     sim = None
     try:
         if prop == "C16":
@@ -1599,6 +1624,8 @@ def shrink_candidates(prop, sc):
         f(c)
         return c
 
+    if sc.get("debug_log"):
+        yield mod(lambda c: c.pop("debug_log"))
     # signals
     if sc["signals"]:
         yield mod(lambda c: c.__setitem__("signals", []))
